@@ -140,6 +140,13 @@ struct Config {
 /// position, and whatever a provider or the lattice builder carries over from an earlier position becomes visible
 const SEGMENTS: u32 = 100;
 
+/// class lengths above 80 are generated only while this holds: the run first probes the real plugin with a large but
+/// harmless length (escalation); if the number of candidates grows with `length` the huge values are not tried at all
+static ALLOW_HUGE: std::sync::atomic::AtomicBool = std::sync::atomic::AtomicBool::new(true);
+fn allow_huge() -> bool {
+    ALLOW_HUGE.load(std::sync::atomic::Ordering::Relaxed)
+}
+
 fn bits(cs: &[usize]) -> u32 {
     cs.iter().fold(0, |a, c| a | CLASSES[*c].1)
 }
@@ -341,6 +348,11 @@ fn gen_config(seed: u64, work: &PathBuf, directed: u32) -> Config {
         let i = rng.below(unks.len() as u64) as usize;
         let j = rng.below(unks.len() as u64) as usize;
         unks.swap(i, j);
+    }
+    if !allow_huge() {
+        for ci in infos.iter_mut() {
+            ci.length = ci.length.min(80);
+        }
     }
     let mut char_def = String::from("# generated by the C13 harness\n");
     for ci in &infos {
@@ -914,6 +926,12 @@ fn run_case_in<'a>(cfg: &'a Config, text: &str, rng: &mut Rng, verbose: bool, se
                     if !v.is_empty() {
                         ncalls_nonempty += 1;
                     }
+                    // whatever `length` says, a class yields at most one candidate per length of the run and template
+                    if let Prov::Mecab = cfg.provs[pi] {
+                        if v.len() > conts[off].max(1) * cfg.unks.len() {
+                            fails.push(format!("MeCab provider at {}: {} candidates for a class run of {} characters and {} unk.def lines", off, v.len(), conts[off], cfg.unks.len()));
+                        }
+                    }
                     for n in v {
                         if n.pos == usize::MAX {
                             fails.push(format!("provider {} at {}: candidate with a part of speech that no definition names", pi, off));
@@ -1082,7 +1100,7 @@ fn run_case_in<'a>(cfg: &'a Config, text: &str, rng: &mut Rng, verbose: bool, se
         cres(&lat, |per| clist(per.iter().map(|v| clist(v.iter().map(cnode)))))
     );
     let desc = json!({"kind": "c13", "config_seed": cfg.seed, "text": text, "char_def": cfg.char_def, "unk_def": cfg.unk_def,
-                      "oovProviderPlugin": cfg.plugins, "words": cfg.words});
+                      "oovProviderPlugin": cfg.plugins, "words": cfg.words, "huge_lengths": allow_huge()});
     CaseOut { term, desc, nontrivial: multi || ncalls_nonempty > 0, fails, tags }
 }
 
@@ -1101,7 +1119,8 @@ fn emit(sink: &mut Sink, mut desc: Value, extra: Value, out: CaseOut) {
 
 /// Bounded reproduction of the MeCab length-loop defect (env C13_REPRO_LENGTH=<n>): char.def header `ALPHA 1 0 <n>`, text "a";
 /// prints the number of candidates the real plugin pushes at offset 0 and the time it takes.
-fn repro_length_loop(args: &Args, n: u64) {
+fn repro_length_loop(args: &Args, n: u64) -> usize {
+    let mut count_a = 0;
     let dir = args.work.join(format!("c13res-{}", std::process::id()));
     std::fs::create_dir_all(&dir).unwrap();
     std::fs::write(dir.join("char.def"), format!("DEFAULT 0 1 0\nALPHA 1 0 {}\n0x0061..0x007A ALPHA\n", n)).unwrap();
@@ -1124,6 +1143,9 @@ fn repro_length_loop(args: &Args, n: u64) {
         let r = dict.oov_provider_plugins()[0].provide_oov(&buf, 0, CreatedWords::empty(), &mut result);
         let mut ends: Vec<usize> = result.iter().map(|n| n.end()).collect();
         ends.dedup();
+        if text == "a" {
+            count_a = result.len();
+        }
         println!(
             "length={} text={:?}: provide_oov at offset 0 -> {:?}, {} candidates ({} bytes of Node), distinct ends {:?}, {:.3} s",
             n,
@@ -1136,11 +1158,23 @@ fn repro_length_loop(args: &Args, n: u64) {
         );
     }
     cleanup(args);
+    count_a
+}
+
+/// escalation probe (see ALLOW_HUGE): one class of length 3000000, text "a" -- one candidate is prescribed
+fn length_probe(sink: &mut Sink, args: &Args) {
+    let n = repro_length_loop(args, 3_000_000);
+    let id = sink.case_rust_only(json!({"kind": "c13-length-probe", "char_def": "ALPHA 1 0 3000000", "text": "a"}), true);
+    sink.tag("length_probe");
+    if n > 16 {
+        ALLOW_HUGE.store(false, std::sync::atomic::Ordering::Relaxed);
+        sink.fail(id, &format!("char.def `ALPHA 1 0 3000000`, text \"a\": MeCabOovPlugin pushes {} candidates at offset 0 (1 prescribed; the count grows with `length`, 4294967295 would exhaust memory)", n), "");
+    }
 }
 
 pub fn run(args: &Args) {
     if let Ok(v) = std::env::var("C13_REPRO_LENGTH") {
-        repro_length_loop(args, v.parse().expect("C13_REPRO_LENGTH=<u32>"));
+        let _ = repro_length_loop(args, v.parse().expect("C13_REPRO_LENGTH=<u32>"));
         return;
     }
     let mut sink = Sink::new("C13", &args.out, &["Model.Oov"], args.seed, &args.tier);
@@ -1149,6 +1183,15 @@ pub fn run(args: &Args) {
     if let Some(p) = &args.replay {
         let v: Value = serde_json::from_str(&std::fs::read_to_string(p).unwrap()).unwrap();
         let case = &v["case"];
+        if case["kind"] == "c13-length-probe" {
+            length_probe(&mut sink, args);
+            cleanup(args);
+            sink.finish();
+            return;
+        }
+        if case["huge_lengths"] == json!(false) {
+            ALLOW_HUGE.store(false, std::sync::atomic::Ordering::Relaxed);
+        }
         if case["kind"] == "c13-forms" {
             let mut rng = Rng::new(args.seed);
             println!("re-running the normalized-forms stream (implementation only); failing text was {}", case["text"]);
@@ -1197,6 +1240,7 @@ pub fn run(args: &Args) {
         return;
     }
     let mut rng = Rng::new(args.seed);
+    length_probe(&mut sink, args);
     // directed cases first (the shipped shape of the definitions; base + modifier + other class; double ZWJ; long run)
     let dcfg = gen_config(7, &args.work, 1);
     if let Some(e) = &dcfg.load_error {
